@@ -101,3 +101,5 @@ pub fn gen_cases(_seed: u64, _n: usize, thorough: bool) -> Vec<String> {
     }
     out
 }
+
+pub fn program_source(name: &str) -> Option<String> { sources().into_iter().find(|(n, _)| n == name).map(|(_, s)| s) }
